@@ -713,3 +713,50 @@ func binDesc(fn *ssa.Function, name, re string, val lat) BinAssume {
 		return rx.MatchString(descVal(b.X) + " " + b.Op.String() + " " + descVal(b.Y))
 	}}
 }
+
+// reachRule: under the assumptions, a call to callee inside f itself is (wantReached) / is not
+// (!wantReached) executable.
+func (c *Ctx) reachRule(p *Program, rule, what string, f *ssa.Function, args map[string]lat, as []Assume, vas []ValAssume, callee string, wantReached bool) {
+	if f == nil {
+		c.undecided(rule, what, "anchor function does not resolve", "")
+		return
+	}
+	construct := fname(f) + ": " + what
+	q := &GuardQuery{P: p, Root: f, Assumes: as, ValAssumes: vas, MaxDepth: 1}
+	if len(args) > 0 {
+		q.Args = make([]lat, len(f.Params))
+		for i := range q.Args {
+			q.Args[i] = latTop
+		}
+		for n, v := range args {
+			i := paramIdx(f, n)
+			if i < 0 {
+				c.undecided(rule, construct, "parameter "+n+" does not exist", p.fnPos(f))
+				return
+			}
+			q.Args[i] = v
+		}
+	}
+	var hits []string
+	q.Observe = func(in *ssa.Function, site ssa.CallInstruction, name string, _ func(ssa.Value) lat) {
+		if in == f && normName(name) == normName(callee) {
+			hits = append(hits, p.pos(site.Pos()))
+		}
+	}
+	r := runGuard(q)
+	for _, va := range vas {
+		if len(r.Sites[va.Name]) == 0 && !strings.HasPrefix(va.Name, "opt:") {
+			c.undecided(rule, construct, "value "+va.Name+" not found in the function", p.fnPos(f))
+			return
+		}
+	}
+	sort.Strings(hits)
+	switch {
+	case wantReached && len(hits) == 0:
+		c.bad(rule, construct, "no call to "+callee+" is executable under the assumptions", p.fnPos(f))
+	case !wantReached && len(hits) > 0:
+		c.bad(rule, construct, callee+" is executable under the assumptions at "+strings.Join(hits, ", "), p.fnPos(f))
+	default:
+		c.ok(rule, construct, fmt.Sprintf("%d executable call(s) to %s", len(hits), callee), p.fnPos(f))
+	}
+}
